@@ -366,4 +366,45 @@ theorem over16_file_fails :
     okB (compileFile Avo.Gen.regs [spCopyFn, exampleFn]) = true ∧
     okB (compileFileStaged Avo.Gen.regs [spCopyFn, exampleFn]) = true := by decide +kernel
 
+/-! ### Function-level context (text attributes, local frame, signature)
+
+The colour set of the model depends on the register table and the kind only. A function's attributes (NOFRAME,
+NOSPLIT, NEEDCTXT, …), its frame and its signature are no input of `candidates` / `allocate`: the theorems above hold
+in every context. An allocator that narrows the colour set by context (e.g. "no base pointer in NOFRAME functions")
+stays inside the property as long as it only REMOVES candidates. -/
+
+structure FnContext where
+  attrs : Nat
+  localSize : Nat
+  hasSignature : Bool
+  deriving Repr, DecidableEq, Inhabited
+
+/-- the allocator model in a function-level context: the context is not looked at -/
+def allocateIn (_ : FnContext) (tbl : List RegRow) (is : List AInstr) : Except AErr (List (Nat × Nat)) := allocate tbl is
+
+theorem allocate_context_irrelevant (c c' : FnContext) (tbl : List RegRow) (is : List AInstr) :
+    allocateIn c tbl is = allocateIn c' tbl is := rfl
+
+/-- **C03 in every context**: whatever the attributes, frame and signature of the function, no target is SP / K0. -/
+theorem compile_in_context_not_sp_k0 (c : FnContext) (is : List AInstr) (A : List (Nat × Nat))
+    (h : allocateIn c Avo.Gen.regs is = .ok A) (e : Nat × Nat) (he : e ∈ A) : isSPorK0 e.2 = false :=
+  compile_targets_not_sp_k0 is A h e he
+
+/-- colour set with further flags excluded ("any of the flags `excl` set" removes the register) -/
+def candidatesExcl (tbl : List RegRow) (kind excl : Nat) : List Nat :=
+  (candidates tbl kind).filter (fun id => tbl.all (fun r => r.id != id || r.kind != kind || r.info &&& excl == 0))
+
+/-- narrowing by context only removes candidates: everything proved of `candidates` is inherited -/
+theorem candidatesExcl_subset (tbl : List RegRow) (kind excl id : Nat) (h : id ∈ candidatesExcl tbl kind excl) :
+    id ∈ candidates tbl kind := (List.mem_filter.mp h).1
+
+/-- Non-vacuity, and what is excluded: excluding the base pointer as well leaves 14 GP candidates, none of them SP or
+BP; whereas NO row of the file carries both flags at once, so a test "all of Restricted|BasePointer set" excludes
+nothing — the stack pointer and K0 would be candidates. -/
+theorem context_exclusion_facts :
+    (candidatesExcl Avo.Gen.regs kindGP infoBasePointer).length = 14 ∧
+    (candidatesExcl Avo.Gen.regs kindGP infoBasePointer).all (fun id => idIndex id != 4 && idIndex id != 5) = true ∧
+    Avo.Gen.regs.all (fun r => r.info &&& (infoRestricted ||| infoBasePointer) != (infoRestricted ||| infoBasePointer)) = true := by
+  decide +kernel
+
 end Avo.Alloc
